@@ -34,8 +34,10 @@ def c08(tier):
     dck = Check("C08", tier)
     defs, _ = p_check.oracle("quick", ["rw"], dck, sample=1, ords=1)
     ck.states += dck.states; ck.transitions += dck.transitions
+    # the server's own depth limit is 3, so that request depths on both sides of it are sent
     depths = [0, 2, 5] if tier == "quick" else [-1, 0, 1, 2, 3, 5, 8, 100]
-    inp = {"def": defs["rw"], "states": STATES, "queries": [q for q, _ in QUERIES], "depths": depths, "batches": batches, "maxbatch": table["maxbatch"]}
+    inp = {"def": defs["rw"], "states": STATES, "queries": [q for q, _ in QUERIES], "depths": depths, "batches": batches, "maxbatch": table["maxbatch"],
+           "gdepth": 3}
     recs = run_harness(binary, "api", inp, shards=min(8, len(STATES)))
     if len(recs) != len(STATES) * len(depths):
         raise Inconclusive("expected %d result records, got %d" % (len(STATES) * len(depths), len(recs)))
